@@ -1,11 +1,11 @@
 package core
 
 import (
-	"sync"
 	"go/ast"
 	"go/token"
 	"go/types"
 	"strings"
+	"sync"
 
 	"golang.org/x/tools/go/packages"
 	"golang.org/x/tools/go/types/typeutil"
@@ -224,6 +224,12 @@ func (c *Ctx) FindDecl(rel, name string) (*packages.Package, *ast.FuncDecl) {
 			if fd, ok := d.(*ast.FuncDecl); ok && DeclName(fd) == name {
 				return p, fd
 			}
+		}
+	}
+	// a helper that has been inlined into its single pinned caller is looked for there (Ctx.Func)
+	if fn := c.Func(rel, name); fn != nil {
+		if fd := c.Decl(fn); fd != nil {
+			return p, fd
 		}
 	}
 	return p, nil
